@@ -49,7 +49,7 @@ func runC15(cfg *vh.Config) error {
 	var cases []*c15case
 	invalid := 0
 	for len(cases) < n && invalid < 10*n+100 {
-		prof := descgen.Profile{MaxFiles: 3, Supported: true, Comments: r.Chance(40)}
+		prof := descgen.Profile{MaxFiles: 3, Supported: true, Comments: r.Chance(40), CrossPkg: len(cases)%3 == 1}
 		if len(cases)%8 == 7 {
 			prof.Supported, prof.Wild = false, 5
 		}
@@ -77,7 +77,21 @@ func runC15(cfg *vh.Config) error {
 		// the image lists some of the packages; the others (and their sub-packages) are
 		// reached only through references: "indirect" packages of the API
 		pkgs := allPkgs
-		if len(allPkgs) > 1 && r.Chance(60) {
+		first := imagePackage(c.Gen[0].GetPackage())
+		if prof.CrossPkg && len(allPkgs) > 1 && r.Chance(70) {
+			// list everything but the package of the first file: it (often a sub-package) is then
+			// reached only through references from the listed ones
+			pkgs = nil
+			for _, p := range allPkgs {
+				if p != first {
+					pkgs = append(pkgs, p)
+				}
+			}
+			c.Tags["image-with-unlisted-packages"]++
+			if c.Gen[0].GetPackage() != first {
+				c.Tags["unlisted-sub-package-first"]++
+			}
+		} else if len(allPkgs) > 1 && r.Chance(60) {
 			pkgs = nil
 			for _, p := range allPkgs {
 				if r.Chance(50) {
